@@ -43,7 +43,8 @@ EXPECTED_PROBES = [f"fault_cut_{c}_{k}" for c in CUT_CLASSES for k in ("fin", "r
     "probe_retry_path", "probe_server_error", "probe_server_shutdown", "probe_peer_push_handled", "probe_cut_with_calls_pending",
     "probe_big_response", "probe_big_request", "probe_unencodable_request", "probe_broken_on_error_ran",
     "probe_many_unencodable_requests_then_a_call", "net_cut_timeout", "probe_two_connections", "line_preemptions_hot", "probe_bidirectional", "probe_reverse_call",
-    "probe_server_initiated_close", "net_stall", "probe_request_with_effect", "probe_slow_on_close_ran", "probe_push_call_issued_on_the_klong_loop"]
+    "probe_server_initiated_close", "net_stall", "probe_request_with_effect", "probe_slow_on_close_ran", "probe_push_call_issued_on_the_klong_loop",
+    "probe_server_evaluation_leaves_through_exit"]
 WALL_CAP = {"quick": 400, "thorough": 3600}
 
 
@@ -281,8 +282,12 @@ def scenario(ch, cfg):
                 # (a function call / dictionary get on a name that does not exist)
                 # ... and a request that evaluates fine but to a value that cannot be sent back ("unpd")
                 msg, exp = ch.pick(["1+", "nosuchfn(1)", "[1 2 3]@99", ipc.KGRemoteFnCall(KGSym("nosuchfn"), [1]),
-                                    ipc.KGRemoteDictGetCall(KGSym("nosuchvar")), "unpd"], "errexpr"), "error"
+                                    ipc.KGRemoteDictGetCall(KGSym("nosuchvar")), "unpd", ".x(0)"], "errexpr"), "error"
                 stats["probe_server_error"] += 1
+                if msg == ".x(0)":
+                    # the evaluation ends through an exit request: a failed evaluation like any other (found: it ended the
+                    # server's klong loop thread and every caller waited for ever; repaired 4d6ac5e)
+                    stats["probe_server_evaluation_leaves_through_exit"] += 1
             calls.append((msg, exp))
         plans.append(calls)
 
